@@ -26,6 +26,12 @@ The shard process runs with its cwd inside the sandbox (so search paths `.`, ``,
 `templates` ... are real roots) and with HOME pointing at a sandbox directory full of canaries
 (so any `~` expansion is visible to the audit hook and the content oracle).
 
+File-parent access paths: hostile names are also requested by tags that execute inside
+templates loaded BY NAME from the loader under test (`context.template.path` set): launcher
+files in the root, in `sub/`, `sub/deep/`, nested include chains and both ends of an extends
+chain, plus per-call written files for the literal-only tags.  The launcher is loaded before
+the observation window opens; only the hostile load happens inside it.
+
 A name that stays inside a root but designates a directory (``, `.`, `sub/`) surfaces
 IsADirectoryError / ValueError today; that breaks neither clause and is only counted
 (`diag:*`).
@@ -89,7 +95,16 @@ RULE = (
     "before '..', as the OS does); every directory a lexical or otherwise wrong resolution "
     "could reach holds the same file names with unique contents. "
     "Access: env.get_template / get_template_async, and {% include 'N' %}, "
-    "{% include var %}, {% render 'N' %}, {% extends 'N' %} rendered sync and async. "
+    "{% include var %}, {% render 'N' %}, {% extends 'N' %} rendered sync and async from "
+    "env.from_string templates (10 paths), and 24 FILE-PARENT paths in which the requesting "
+    "tag runs in a template that was itself loaded BY NAME from the same loader: launcher "
+    "files planted in every root ([{% include n %}] in the root, in sub/ and in sub/deep/; "
+    "a nested include chain root -> sub -> sub/deep; the child block and the parent of an "
+    "extends chain) and per-call written files holding {% include|render|extends 'N' %} in "
+    "the root and in sub/ — sync and async; directed names also aim at every canary "
+    "relative to each launcher's directory. Quick: names of up to 2 tokens meet the 12 "
+    "launcher paths on every configuration, longer / random / directed names one rotating "
+    "file-parent path; thorough: all 24 wherever 'full' applies. "
     "distinct = hash of (symbolic name, configuration) — the access paths and sync/async "
     "are repeated evaluations of the case; non-trivial = the name has at least 2 grammar "
     "tokens."
@@ -122,6 +137,32 @@ ASSUMPTIONS = [
 
 MARK = "C13CANARY"
 ROOT_FILES = ("a", "a.liquid", "a.txt", "index.liquid", "sub/a.liquid")
+# "launcher" templates planted inside every root and loaded BY NAME: the tag that requests
+# the hostile name then runs in a template that has a path (root dir, sub-directory, nested
+# include chain, child and parent of an extends chain)
+LAUNCHERS = {
+    "t_inc.liquid": "[{% include n %}]",
+    "sub/t_inc.liquid": "[{% include n %}]",
+    "sub/deep/t_inc.liquid": "[{% include n %}]",
+    "t_chain.liquid": "{% include 'sub/t_mid.liquid' %}",
+    "sub/t_mid.liquid": "{% include 'sub/deep/t_inc.liquid' %}",
+    "t_child.liquid": "{% extends 'sub/t_base.liquid' %}{% block b %}[{% include n %}]{% endblock %}",
+    "sub/t_base.liquid": "{% block b %}{% endblock %}",
+    "t_child2.liquid": "{% extends 'sub/t_base2.liquid' %}",
+    "sub/t_base2.liquid": "[{% include n %}]",
+}
+LAUNCHER_ROOTS = ("p/A", "p/B", "w/site", "w/site/templates", f"pk/{'c13fixpkg'}/templates",
+                  f"pk/{'c13fixpkg'}/more")
+STATIC_FILE_ACCESS = {  # access path -> launcher loaded by name
+    "file-include@root": "t_inc.liquid",
+    "file-include@sub": "sub/t_inc.liquid",
+    "file-include@sub/deep": "sub/deep/t_inc.liquid",
+    "file-include-chain": "t_chain.liquid",
+    "file-extends-child-block": "t_child.liquid",
+    "file-extends-parent": "t_child2.liquid",
+}
+DYN_FILE_ACCESS = [f"filelit-{tag}@{where}" for tag in ("include", "render", "extends")
+                   for where in ("root", "sub")]
 PKG = "c13fixpkg"
 
 # ---------------------------------------------------------------------------------------
@@ -204,7 +245,8 @@ class Scratch:
                             c c.liquid c.txt a a.liquid sub/a.liquid secret secret.html
                             secret.liquid                      canary "home"
     Files literally named '~' / '~.liquid' are also planted in A and in the package roots
-    (they must stay servable).
+    (they must stay servable), and files named '...liquid' / 'sub/...liquid' ('...txt' in
+    more/) in every root: what with_suffix() makes of the names '..' and 'sub/..'.
     S/r/...   root-spelling sandbox (cwd of the "roots" shards is S/r/site):
               r/site/{app -> ../rel/42/app, tl -> ../rel/42/templates, cur -> ../rel/42}
               and the plain directories r, r/site, r/site/templates, r/templates, r/rel,
@@ -285,6 +327,18 @@ class Scratch:
             self._in(f"p/A/{n}")
             self._in(f"pk/{PKG}/templates/{n}")
         self._in(f"pk/{PKG}/more/~.txt")
+        # files whose name is what Path('..').with_suffix(ext) / Path('sub/..').with_suffix(ext)
+        # produce: a loader that applies the default extension BEFORE looking for '..'
+        # segments turns the names '..' and 'sub/..' into these in-root files
+        for d in ("p/A", "p/B", "w/site", "w/site/templates", f"pk/{PKG}/templates"):
+            self._in(f"{d}/...liquid")
+            self._in(f"{d}/sub/...liquid")
+        self._in(f"pk/{PKG}/more/...txt")
+        self._in(f"pk/{PKG}/more/sub/...txt")
+        for d in LAUNCHER_ROOTS:
+            for n, src in LAUNCHERS.items():
+                lp = self._w(f"{d}/{n}", src)
+                self.inside[lp] = src
         # the home directory '~' would expand to
         for n in ("c", "c.liquid", "c.txt", "a", "a.liquid", "sub/a.liquid", "secret",
                   "secret.html", "secret.liquid"):
@@ -375,6 +429,7 @@ class Cfg:
             "<ROOTNAME>": os.path.basename(self.roots[0]),
         }
         self.t_include_var = env.from_string("[{% include n %}]")
+        self.launchers: dict[str, Any] = {}
         self.rootspec: dict[str, str] | None = None  # set for the roots family
         self.rootshape = ""
         self.keysuffix = ""
@@ -604,6 +659,13 @@ THOROUGH_CORE = CORE + ["sib", "<ROOTNAME>", "//"]
 ACCESS = ["py", "include-lit", "include-var", "render-lit", "extends-lit"]
 MODES = ["sync", "async"]
 ALL_AM = [(a, m) for a in ACCESS for m in MODES]
+STATIC_FILE_AM = [(a, m) for a in STATIC_FILE_ACCESS for m in MODES]
+DYN_FILE_AM = [(a, m) for a in DYN_FILE_ACCESS for m in MODES]
+FILE_AM = STATIC_FILE_AM + DYN_FILE_AM
+
+
+def needs_literal(access: str) -> bool:
+    return access.endswith("-lit") or access.startswith("filelit-")
 
 _UNSAFE_LIT = set("'\"\\$\n\r\x00{}")
 
@@ -765,6 +827,18 @@ def directed_names(sc: Scratch, cfg: Cfg) -> list[str]:
                       target + "\x00", os.path.dirname(target) + "/./" + os.path.basename(target),
                       os.path.dirname(target) + "/x/../" + os.path.basename(target)):
                 add(v)
+    # relative to the directory of an including template (launchers live in the root, in
+    # sub/ and in sub/deep/): where a "next to the including template" lookup would land
+    for _label, cpath in sc.canaries:
+        for r in cfg.roots:
+            for d in ("sub", "sub/deep"):
+                rel = os.path.relpath(cpath, os.path.join(r, d))
+                add(rel)
+                add(os.path.splitext(rel)[0])
+                add("./" + rel)
+    for n in ("../a.liquid", "../../a.liquid", "../sub/a.liquid", "../t_inc.liquid",
+              "deep/../../a.liquid", "../index.liquid", "../a", "../../index"):
+        add(n)
     # every spelling of "the home directory" for the canaries planted below $HOME
     for _label, cpath in sc.canaries:
         if not cpath.startswith(sc.HOME + "/"):
@@ -842,22 +916,48 @@ class Runner:
         self.ignore = _python_prefixes()
         self._rp: dict[str, str] = {}
         self.verbose = False
+        self.thorough = ctx.tier == "thorough"
+        self._dyn = 0
         MON.install()
 
     # -- preparing the call ------------------------------------------------------------
     def _outer(self, cfg: Cfg, access: str, name: str):  # noqa: ANN202
-        """Return (template or None, render data)."""
+        """Return (template | None | False, render data, file to remove afterwards)."""
         if access == "py":
-            return None, None
+            return None, None, None
         if access == "include-var":
-            return cfg.t_include_var, {"n": name}
-        tag = access.split("-")[0]
-        src = f"{{% extends '{name}' %}}" if tag == "extends" else f"[{{% {tag} '{name}' %}}]"
+            return cfg.t_include_var, {"n": name}, None
         try:
-            return cfg.env.from_string(src), {}
+            if access in STATIC_FILE_ACCESS:
+                if cfg.rootspec is not None:
+                    return False, None, None
+                t = cfg.launchers.get(access)
+                if t is None:
+                    # loaded by name, OUTSIDE the observation window
+                    t = cfg.launchers[access] = cfg.env.get_template(STATIC_FILE_ACCESS[access])
+                return t, {"n": name}, None
+            if access.startswith("filelit-"):
+                if cfg.rootspec is not None:
+                    return False, None, None
+                tag, where = access[len("filelit-"):].split("@")
+                src = (f"{{% extends '{name}' %}}" if tag == "extends"
+                       else f"[{{% {tag} '{name}' %}}]")
+                self._dyn += 1
+                rel = ("" if where == "root" else where + "/") + f"t_dyn_{self._dyn}.liquid"
+                path = os.path.join(cfg.roots[0], rel)
+                with open(path, "w", encoding="utf-8") as f:
+                    f.write(src)
+                try:
+                    return cfg.env.get_template(rel), {}, path
+                except BaseException:
+                    os.unlink(path)
+                    raise
+            tag = access.split("-")[0]
+            src = f"{{% extends '{name}' %}}" if tag == "extends" else f"[{{% {tag} '{name}' %}}]"
+            return cfg.env.from_string(src), {}, None
         except self.LiquidError:
             self.ctx.count("outer_parse_failed")
-            return False, None
+            return False, None, None
 
     def _finish(self, ob: Obs, access: str, result: Any) -> None:
         ob.ok = True
@@ -865,14 +965,13 @@ class Runner:
             ob.texts.append(("str(template)", str(result)))
             if result.path is not None:
                 ob.paths.append(("template.path", str(result.path)))
-        elif access.startswith("extends"):
-            ob.texts.append(("output", result))
         else:
+            # in-root contents never start with '[': strip the launcher's brackets if any
             inner = result[1:-1] if result.startswith("[") and result.endswith("]") else result
             ob.texts.append(("output", inner))
 
     def call_sync(self, cfg: Cfg, access: str, name: str) -> Obs | None:
-        outer, data = self._outer(cfg, access, name)
+        outer, data, tmpfile = self._outer(cfg, access, name)
         if outer is False:
             return None
         ob = Obs()
@@ -890,10 +989,12 @@ class Runner:
             ob.excmsg = _safe_str(e)
         finally:
             MON.on = False
+            if tmpfile:
+                os.unlink(tmpfile)
         return ob
 
     async def call_async(self, cfg: Cfg, access: str, name: str) -> Obs | None:
-        outer, data = self._outer(cfg, access, name)
+        outer, data, tmpfile = self._outer(cfg, access, name)
         if outer is False:
             return None
         ob = Obs()
@@ -911,6 +1012,8 @@ class Runner:
             ob.excmsg = _safe_str(e)
         finally:
             MON.on = False
+            if tmpfile:
+                os.unlink(tmpfile)
         return ob
 
     # -- the oracle -------------------------------------------------------------------
@@ -983,7 +1086,13 @@ class Runner:
             ctx.count(f"must_fail_shape:{shape}")
             if ob.ok:
                 if "canary-returned" not in fails and "foreign-content-returned" not in fails:
-                    fails["served"] = [{"texts": [sc.sym(t[:80]) for _, t in ob.texts]}]
+                    segs = [x for x in name.split("/") if x not in ("", ".")]
+                    # key refinement only: the sole '..' is the last segment and a default
+                    # extension exists, i.e. with_suffix() can have turned it into '...<ext>'
+                    clause = ("served:trailing-dotdot+ext"
+                              if shape == "dotdot" and segs and segs[-1] == ".."
+                              and segs.count("..") == 1 and any(cfg.exts) else "served")
+                    fails[clause] = [{"texts": [sc.sym(t[:80]) for _, t in ob.texts]}]
             elif ob.exc != "TemplateNotFoundError":
                 fails[f"wrong-error-type:{ob.exc}"] = [{"message": sc.sym(ob.excmsg[:160])}]
             else:
@@ -1014,6 +1123,10 @@ class Runner:
         ctx.count("outcome:" + ("ok" if ob.ok else str(ob.exc)))
         ctx.seen("loader_kinds", cfg.kind)
         ctx.seen("access_paths", f"{access}/{mode}")
+        if access.startswith("file"):
+            ctx.count("file_parent_calls")
+            if must_fail:
+                ctx.count("file_parent_must_fail_checked")
         if cfg.rootspec is None:
             ctx.seen("configs", cfg.desc)
         else:
@@ -1033,6 +1146,7 @@ class Runner:
                 "canary-returned": "content of a canary file planted outside the roots was returned as template source",
                 "foreign-content-returned": "returned source is not the content of any file inside the roots",
                 "served": "a name that is absolute / has a '..' segment / resolves outside was served instead of TemplateNotFoundError",
+                "served:trailing-dotdot+ext": "a name whose last segment is '..' was served (the default extension turned it into the in-root file '...<ext>') instead of TemplateNotFoundError",
             }.get(clause, ("escaping name" if must_fail else "name that designates nothing inside any root")
                   + " failed with " + clause.split(":", 1)[-1] + " instead of TemplateNotFoundError")
             ctx.violation(key, f"{cfg.kind}: {what} ({shape} name)", {
@@ -1059,7 +1173,7 @@ class Runner:
         asyncs = []
         for job in jobs:
             cfg, access, mode, name, ntoks, symb = job
-            if access.endswith("-lit") and not literal_safe(name):
+            if needs_literal(access) and not literal_safe(name):
                 self.ctx.count("literal_unsafe_skipped")
                 continue
             if mode == "sync":
@@ -1160,7 +1274,10 @@ def floors(tier: str) -> dict[str, int]:
         "max:canaries_planted": 4,
         "selfcheck_ok": 2,
         "set:loader_kinds": 5,
-        "set:access_paths": 10,
+        "set:access_paths": 34,
+        # tags executed in templates that were themselves loaded by name (quick: 373 k calls)
+        "file_parent_calls": 150_000 if q else 1_500_000,
+        "file_parent_must_fail_checked": 50_000 if q else 500_000,
         "set:configs": N_CONFIGS,
     }
 
@@ -1214,29 +1331,38 @@ def _expand(r: Runner, jobs: list[Any], k: int, scheme: str, ntoks: int, symb: s
             toks: tuple[str, ...] | None = None, name: str | None = None,
             cfgs: list[Cfg] | None = None) -> None:
     """Append the calls for one name.  scheme:
-    full  every configuration x all 10 (access, mode) pairs;
+    full  every configuration x all 10 (access, mode) pairs + the file-parent paths;
+    (rot / py3 / py2 / py1 additionally take one rotating file-parent path, see code)
     rot   every configuration: py/sync, py/async and 3 of the 8 tag paths, rotating with the
           name index and the configuration so that each name meets all 10 paths;
     py3 / py2  every configuration: py/sync and 2 / 1 of the other 9 paths, rotating;
     py1   every configuration from Python (sync); one configuration (rotating) also
           through one further rotating path."""
     use = cfgs if cfgs is not None else r.cfgs
+    nf = len(FILE_AM)
     for ci, cfg in enumerate(use):
         nm = cfg.concrete(toks) if toks is not None else name
         if scheme == "full":
-            ams = ALL_AM
+            # quick: the 12 launcher paths; thorough: also the 12 written-literal paths
+            ams = ALL_AM + (FILE_AM if r.thorough else STATIC_FILE_AM)
         elif scheme == "rot":
             o = 3 * (k + ci)
             ams = [ALL_AM[0], ALL_AM[1]] + [TAG_AM[(o + j) % 8] for j in range(3)]
-        elif scheme == "py3":
+            ams.append(FILE_AM[(k + ci) % nf])
+        elif scheme in ("py3", "py3f"):
             o = 2 * (k + ci)
             ams = [ALL_AM[0], ALL_AM[1 + o % 9], ALL_AM[1 + (o + 1) % 9]]
+            if scheme == "py3f" or (k + ci) % 4 == 0:
+                ams.append(FILE_AM[(k // (1 if scheme == "py3f" else 4) + ci) % nf])
         elif scheme == "py2":
             ams = [ALL_AM[0], ALL_AM[1 + (k + ci) % 9]]
+            if (k + ci) % 4 == 0:
+                ams.append(FILE_AM[(k // 4 + ci) % nf])
         else:
             ams = [ALL_AM[0]]
             if ci == k % len(use):
-                ams = [ALL_AM[0], ALL_AM[1 + (k // len(use)) % 9]]
+                j = k // len(use)
+                ams.append(FILE_AM[(j // 2) % nf] if j % 2 else ALL_AM[1 + (j // 2) % 9])
         for a, m in ams:
             jobs.append((cfg, a, m, nm, ntoks, symb))
 
@@ -1336,7 +1462,7 @@ def _rand(r: Runner, spec: dict[str, Any], ctx: Ctx) -> None:
 
 def _directed(r: Runner, spec: dict[str, Any], ctx: Ctx) -> None:
     last = None
-    scheme = "py3" if spec["tier"] == "quick" else "full"
+    scheme = "py3f" if spec["tier"] == "quick" else "full"
     for cfg in r.cfgs:
         if cfg.id % spec["n"] != spec["i"]:
             continue
